@@ -4,7 +4,7 @@ from ..gen import G
 from ..common import run_apps, app, out_of, sig, base_files
 from ..core import unhx
 
-THEOREMS = []
+THEOREMS = ['callbacks_never_panic', 'delivery_exclusive', 'depth_is_bounded', 'parse_total']
 LEVEL = 'proof'
 RULE = ('arbitrary byte strings and grammar-aware mutations of valid files (truncated lines, bad numbers, stray separators, invalid UTF-8, NaN/Inf/hex floats/1e999, '
         'cycles, empty files, 70 KiB lines) in the log, the book and the linted file x every command and flag shape, under recover() with a timeout; '
